@@ -34,7 +34,7 @@ type SweepIn struct {
 
 var sweepScenario int // the scenario of the case this child runs (the proxies' backend behaviour)
 
-var sweepSvcCode = map[string]int{"tftp-upload": 17, "proxy:dns-proxy/udp": 12, "proxy:dns-proxy/tcp": 13, "proxy:copy/udp": 14, "proxy:copy/tcp": 15, "proxy:http-proxy/tcp": 16,
+var sweepSvcCode = map[string]int{"deploy-udp": 18, "tftp-upload": 17, "proxy:dns-proxy/udp": 12, "proxy:dns-proxy/tcp": 13, "proxy:copy/udp": 14, "proxy:copy/tcp": 15, "proxy:http-proxy/tcp": 16,
 	"vnc": 1, "ssh-simulator": 2, "ipp": 3, "ftp-data-plain": 4, "ftp-data-tls": 5, "deploy": 6,
 	"redis": 7, "ldap": 8, "snmp": 9, "memcached": 10, "telnet": 11}
 
